@@ -610,11 +610,32 @@ func (s *Store[K, V]) removeEntry(entry *Entry[K, V], reason RemoveReason) {
 
 	if reason == EXPIRED {
 		// entry might updated already
-		// update expire filed are protected by shard mutex
+		// update expire filed are protected by shard mutex: decide and take the
+		// entry out of the map under one hold of it, so that a SetWithTTL cannot
+		// renew the entry between the decision and the removal and then be lost
 		verifPoint(vpExpireRecheck)
+		shard.mu.Lock()
 		if expire := entry.expire.Load(); expire == 0 || expire > s.timerwheel.clock.NowNano() {
+			shard.mu.Unlock()
 			return
 		}
+		deleted := shard.delete(entry)
+		shard.mu.Unlock()
+		entry.flag.SetRemoved(true)
+		if prev := entry.meta.prev; prev != nil {
+			s.policy.Remove(entry, false)
+		}
+		if entry.meta.wheelPrev != nil {
+			s.timerwheel.deschedule(entry)
+		}
+		if deleted {
+			k, v := entry.key, entry.value
+			if s.removalListener != nil {
+				s.removalListener(k, v, reason)
+			}
+			s.postDelete(entry)
+		}
+		return
 	}
 	// flag the entry only once it is certain that it leaves: an entry whose
 	// deadline was extended concurrently stays alive and must keep receiving events
